@@ -36,7 +36,8 @@ type RecIn struct {
 //	K: C create, G get, M getmany, P put, N putmany, S cas, D delete, L listkeys,
 //	   W waitforversionchange (ctx deadline D ms), A advance time by D ms
 //	Val: 0 nil, 1 "", 2 "x", 3 300 bytes
-//	Exp: "" none, or a Go duration relative to the client's clock at the call ("1h", "-1h", "30ms")
+//	Exp: "" none, or a Go duration relative to the client's clock at the call ("1h", "-1h", "30ms"), or one of the
+//	absolute instants "zero", "epoch", "y2400", "y9999" (the last two lie further ahead than a time.Duration reaches)
 //	Ver: cur (last version seen for the key), old (the one seen before it), unk, empty
 type Op struct {
 	K    string   `json:"k"`
@@ -262,6 +263,12 @@ func (b *Backend) expires(exp string) (*time.Time, *big.Int) {
 		return &t, b.rel(t)
 	case "epoch":
 		t := time.Unix(0, 0)
+		return &t, b.rel(t)
+	case "y9999": // a "never" sentinel: further away than a time.Duration can express (about 292 years)
+		t := time.Date(9999, 12, 31, 23, 59, 59, 0, time.UTC)
+		return &t, b.rel(t)
+	case "y2400": // just beyond the range of time.Duration
+		t := time.Date(2400, 1, 1, 0, 0, 0, 0, time.UTC)
 		return &t, b.rel(t)
 	}
 	frac := time.Duration(-1)
